@@ -735,6 +735,23 @@ def s_map_insert(vm, st, callee, args, dest, ret_bb, m):
     return done(vm, st, dest, ret_bb, none())
 
 
+def s_default(vm, st, callee, args, dest, ret_bb, m):
+    t = callee
+    if t.startswith('<Vec<') or t.startswith('<std::vec::Vec<'):
+        return done(vm, st, dest, ret_bb, VecV(()))
+    if 'BTreeMap<' in t.split(' as ')[0]:
+        return done(vm, st, dest, ret_bb, Opaque('map', ()))
+    if 'BTreeSet<' in t.split(' as ')[0]:
+        return done(vm, st, dest, ret_bb, Opaque('set', ()))
+    if t.startswith('<Option<') or t.startswith('<std::option::Option<'):
+        return done(vm, st, dest, ret_bb, none())
+    if t.startswith('<bool '):
+        return done(vm, st, dest, ret_bb, mk_bool(False))
+    if t.startswith('<std::string::String ') or t.startswith('<String '):
+        return done(vm, st, dest, ret_bb, StrV(''))
+    raise Unsupported(f'Default for {callee}')
+
+
 def s_map_new(vm, st, callee, args, dest, ret_bb, m):
     return done(vm, st, dest, ret_bb, Opaque('map', ()))
 
@@ -1343,6 +1360,7 @@ TABLE = [
     (r'^BTreeMap::<.*>::get::<', s_map_get),
     (r'^BTreeMap::<.*>::insert$', s_map_insert),
     (r'^BTreeMap::<.*>::new$', s_map_new),
+    (r'^<(Vec|std::vec::Vec|BTreeMap|std::collections::BTreeMap|BTreeSet|std::collections::BTreeSet|Option|std::option::Option|bool|String|std::string::String)[< ].* as (std::default::)?Default>::default$', s_default),
     (r'^Option::<.*>::as_mut$', s_opt_as_mut),
     (r'^<<T as Text<\'_>>::Value as AsRef<str>>::as_ref$', s_deref_id),
     (r'^<(Vec<.*>|(std::string::)?String|Cow<.*>|&.*|std::boxed::Box<.*>) as (std::ops::)?(__)?Deref(Mut)?>::deref(_mut)?$', s_deref_id),
